@@ -497,6 +497,122 @@ def run_nogo(case, res):
     res["sample"] = dict(case)
 
 
+DEMO_OUTLINE = [[19.46202532, 108.8860759], [19.67827004, 94.46835443], [24.65189873, 75.3164557], [37.19409283, 56.59493671], [51.68248945, 45.83544304],
+                [84.33544304, 38.94936709], [112.0147679, 38.94936709], [131.0443038, 35.50632911], [147.2626582, 28.83544304], [160.8860759, 18.07594937],
+                [171.6983122, 18.29113924], [167.157173, 72.94936709], [169.1033755, 80.48101266], [177.3206751, 99.63291139], [182.2943038, 115.7721519],
+                [182.2943038, 121.3670886], [155.0474684, 118.5696203], [53.19620253, 112.3291139]]
+DEMO_NOGO = [[74.38818565, 80.69620253], [73.0907173, 53.36708861], [93.85021097, 52.50632911], [120.0158228, 53.15189873], [121.5295359, 62.18987342],
+             [128.8818565, 63.26582278], [128.8818565, 78.5443038], [129.0981013, 80.91139241], [108.5548523, 81.34177215], [104.0137131, 110.0],
+             [95.58016878, 110.0], [95.7964135, 81.7721519]]
+
+
+def boundary_distance(poly, pts):
+    pts = np.asarray(pts, dtype=float).reshape(-1, 2)
+    best = np.full(len(pts), np.inf)
+    n = len(poly)
+    for i in range(n):
+        a = np.asarray(poly[i - 1], dtype=float)
+        b = np.asarray(poly[i], dtype=float)
+        ab = b - a
+        t = np.clip(((pts - a) @ ab) / float(ab @ ab), 0.0, 1.0)
+        best = np.minimum(best, np.hypot(*(pts - (a + t[:, None] * ab)).T))
+    return best
+
+
+def classify_points(poly, pts):
+    """+1 clearly inside, -1 clearly outside, 0 within 1e-6 m of the boundary (any simple polygon; crossing number)"""
+    pts = np.asarray(pts, dtype=float).reshape(-1, 2)
+    d = boundary_distance(poly, pts)
+    out = np.array([P.classify(poly, float(x), float(y)) for x, y in pts], dtype=int)
+    out[d <= 1e-6] = 0
+    return out
+
+
+def run_demo(case, res):
+    """the documented demo outline (not convex) with / without its no-go polygon: generation ends, stays on the land and out of the zone"""
+    lot = DEMO_OUTLINE if not case.get("cw") else DEMO_OUTLINE[::-1]
+    zones = [DEMO_NOGO] if case["nogo"] else None
+    s = case["spacing"]
+    if case.get("optimise"):
+        start, stop, step = case["optimise"]
+        field, ng = _rw.gen_shape(lot, zones)
+        nrot = int((stop - start) / step) + 2
+        res["evals"] += 1
+        if case["perimeter"]:
+            out, err = with_horizon(_rw.field_optimization_wp_space_fr, 0.8, s, step, field, ng_zones=ng, rotate_start=math.radians(start), rotate_stop=math.radians(stop), _budget=HORIZON_S + 0.5 * nrot)
+        else:
+            out, err = with_horizon(_rw.field_optimization_fr, s, step, field, ng_zones=ng, rotate_start=math.radians(start), rotate_stop=math.radians(stop), _budget=HORIZON_S + 0.5 * nrot)
+        runs = [(f"optimiser {case['optimise']}", (out[0] if err is None else None), err)]
+        if err is None and not case["perimeter"] and not case["nogo"]:
+            definite, optional = sweep(start, stop, step)
+            sizes = {}
+            for r in definite + optional:
+                g, e = with_horizon(gen_once_rad, lot, s, r)
+                if e is None:
+                    sizes[round(math.degrees(r), 6)] = len(_rw.remove_duplicates(g, s * 1.2))
+            best_def = max((sizes.get(round(math.degrees(r), 6), 0) for r in definite), default=0)
+            best_all = max(sizes.values(), default=0)
+            n = len(np.asarray(out[0]).reshape(-1, 2))
+            if sizes and not (best_def <= n <= best_all):
+                res["violations"].append(core.viol("optimiser_not_densest", case, observed=n, expected=best_def, msg=f"demo outline, spacing {s}, sweep {case['optimise']}: optimiser returned {n} boreholes ({out[1]}), "
+                                                   f"the densest tried rotation yields {best_def}"))
+    else:
+        runs = []
+        for rot in case["rots"]:
+            res["evals"] += 1
+            out, err = with_horizon(gen_multi, lot, s, rot, zones, case["perimeter"], _budget=2 * HORIZON_S)
+            runs.append((f"rotation {rot}", out, err))
+    for what, out, err in runs:
+        c1 = dict(case)
+        if what.startswith("rotation"):
+            c1["rots"] = [float(what.split()[1])]
+        if err is not None:
+            kind = "does_not_terminate" if err == "timeout" else "generator_raised"
+            res["violations"].append(core.viol(kind, c1, msg=f"demo outline, spacing {s}, {what}, no-go {case['nogo']}, perimeter {case['perimeter']}: {err if err == 'timeout' else type(err).__name__ + ': ' + str(err)}",
+                                               demo=True, **({"exc": type(err).__name__} if err != "timeout" else {})))
+            res.outcome("timeout" if err == "timeout" else "raised")
+            continue
+        pts = np.asarray(out, dtype=float).reshape(-1, 2)
+        if len(pts) == 0:
+            res["violations"].append(core.viol("empty_field", c1, msg=f"demo outline, {what}: no borehole generated", demo=True))
+            continue
+        cl = classify_points(DEMO_OUTLINE, pts)
+        if (cl < 0).any():
+            q = pts[cl < 0][0]
+            res["violations"].append(core.viol("borehole_outside_lot", dict(c1, point=[float(q[0]), float(q[1])]), msg=f"demo outline, spacing {s}, {what}, perimeter {case['perimeter']}: borehole ({q[0]:.4f}, {q[1]:.4f}) "
+                                               f"lies outside the outline ({int((cl < 0).sum())} of {len(pts)})", what="demo"))
+        if zones:
+            cz = classify_points(DEMO_NOGO, pts)
+            if (cz > 0).any():
+                q = pts[cz > 0][0]
+                res["violations"].append(core.viol("borehole_inside_no_go", dict(c1, point=[float(q[0]), float(q[1])]), msg=f"demo outline, spacing {s}, {what}, perimeter {case['perimeter']}: borehole ({q[0]:.4f}, {q[1]:.4f}) "
+                                                   f"lies inside the demo no-go polygon ({int((cz > 0).sum())} of {len(pts)})", what="demo", nogo="demo_polygon", perimeter=case["perimeter"], last_bit_edge=False))
+        res.outcome("demo_generated")
+        res["nontrivial"] += 1
+    res["sample"] = dict(case)
+
+
+def ngon_lot(n, phi_deg, offset, cw):
+    """n points on an ellipse (55 x 38 m half axes, tilted by phi) at uneven angles: strictly convex, 3 decimals, touching the axes when offset = 0"""
+    phi = math.radians(phi_deg)
+    pts = []
+    for k in range(n):
+        th = 2 * math.pi * (k + 0.23 * ((k * 7) % 5 - 2) / 2.0) / n
+        x, y = 55.0 * math.cos(th), 38.0 * math.sin(th)
+        pts.append((x * math.cos(phi) - y * math.sin(phi), x * math.sin(phi) + y * math.cos(phi)))
+    mx, my = min(p[0] for p in pts), min(p[1] for p in pts)
+    lot = [[round(x - mx + offset, 3), round(y - my + offset, 3)] for x, y in pts]
+    return lot[::-1] if cw else lot
+
+
+def run_ngon(case, res):
+    lot = ngon_lot(case["n"], case["phi"], case["offset"], case["cw"])
+    c = {"kind": "single", "poly": lot, "scale": 1.0, "offset": 0.0, "spacing": case["spacing"], "rots": case["rots"], "translate": [15.0] if case.get("translate") else None}
+    run_single(c, res)
+    res.outcome("ngon")
+    res["sample"] = dict(case)
+
+
 def run_far(case, res):
     """the same lot far from the origin (site coordinates in a national grid): generation ends, stays inside, and is the rigid
     translate of the field generated near the origin"""
@@ -543,6 +659,10 @@ def run_case(case):
     k = case.get("kind")
     if k == "nogo":
         run_nogo(case, res)
+    elif k == "demo":
+        run_demo(case, res)
+    elif k == "ngon":
+        run_ngon(case, res)
     elif k == "far":
         run_far(case, res)
     elif k == "single":
@@ -642,6 +762,15 @@ def main(run: core.Run, only=None):
     nogos += [{"kind": "nogo", "lot": lot, "zones": z, "spacing": 7.3, "axes": [0.0, 30.0], "rots": [-45.0, 0.0, 30.0, 75.0], "unrounded": True}
               for lot in ("rect_off", "rect_axes") for z in ("two_mixed_orient", "three", "three_rev", "one_ccw")]
     run.drive(nogos, family="no-go-zones")
+    ngons = [{"kind": "ngon", "n": n, "phi": phi, "offset": off, "cw": cw, "spacing": sp, "rots": [-90.0, -45.0, 0.0, 30.0, 75.0] if quick else ROTS, "translate": (n % 2 == 0 and not cw)}
+             for n in (9, 10, 11, 12) for phi in (0.0, 20.0) for off in (0.0, 7.5) for cw in (False, True) for sp in ((7.3,) if quick else (5.3, 7.3, 11.9, 17.0, 23.0))]
+    run.drive(ngons, family="ngons-9-to-12")
+    demos = [{"kind": "demo", "spacing": sp, "nogo": ng, "perimeter": per, "cw": cw, "rots": [-90.0, -45.0, 0.0, 30.0, 75.0] if quick else [float(r) for r in range(-90, 91, 5)]}
+             for sp in ((10.0, 15.1) if quick else (10.0, 12.5, 15.1, 17.3, 20.0)) for ng in (False, True) for per in (False, True) for cw in (False, True)]
+    demos += [{"kind": "demo", "spacing": sp, "nogo": ng, "perimeter": per, "optimise": list(w)}
+              for sp in ((15.1,) if quick else (10.0, 15.1, 20.0)) for ng in (False, True) for per in (False, True)
+              for w in (((-90.0, 0.0, 5.0),) if quick else ((-90.0, 0.0, 0.5), (-90.0, 90.0, 5.0), (-20.0, 20.0, 1.5)))]
+    run.drive(demos, family="demo-outline", chunksize=1)
     fars = []
     for pi in idx[:: (60 if quick else 12)]:
         for shift in ([1000.0, 2000.0], [25000.0, 8000.0], [500000.0, 4100000.0]):
@@ -659,5 +788,5 @@ def main(run: core.Run, only=None):
         assumptions=["outlines are listed counter-clockwise, and every second / third chunk of lots also clockwise", "lots narrower than two spacings are skipped and counted",
                      "rotations within 1e-9 degree of the end of a window may or may not be tried (float accumulation in the sweep)",
                      "spacing is asserted only without perimeter spacing and without no-go zones, as the property states"],
-        require_outcomes=("generated", "rectangle", "optimised", "nogo_generated", "far_generated", "clockwise_outline"),
+        require_outcomes=("generated", "rectangle", "optimised", "nogo_generated", "far_generated", "clockwise_outline", "ngon", "demo_generated"),
     )
